@@ -1,4 +1,4 @@
-import Lt.RH
+import RedisGoModel.Raft.RH
 /-! Stage A prototype: etcd's `MajorityConfig.CommittedIndex` — fill a slice with the match indexes in map-iteration
     order, insertion-sort it ascending, return `srt[n - (n/2+1)]` — computes exactly `qidx`, the largest match value
     that a counted majority has reached, whatever the iteration order. -/
